@@ -338,6 +338,11 @@ def prefix_free_ids(rnd, n, maxlen=16):
     """n distinct prefix-free bit strings of various lengths (a random prefix code)."""
     ids = []
     tries = 0
+    if n <= 8 and rnd.random() < 0.2:
+        # a prefix code whose members are all equal as integers: 1, 01, 001, ... (shuffled)
+        ids = ['0' * k + '1' for k in range(n)]
+        rnd.shuffle(ids)
+        return ids
     while len(ids) < n and tries < 1000:
         tries += 1
         ln = rnd.choice([1, 2, 3, 4, 5, 8, 9, rnd.randint(1, maxlen)])
